@@ -27,6 +27,7 @@ Steps
   3. TLC prints every complete valid configuration (BFS) and seeded random larger ones (-simulate); the driver builds each with
      the real graph.Build / extensions.New, the factories probe what they were given (12 probes x create / start / late, also
      through WithoutAttributes the way otlp / memory_limiter do); TLC (CompTelMonitor) judges the recorded emissions.
+     Every 5th service is built, started and shut down through the public service.New instead (logs only).
   4. The same with the REAL otlp receiver and memory_limiter processor in the graph (A7).
 Open finding E13-memorylimiter-drops-component-id: see extras/known_findings.json.
 """
@@ -200,6 +201,11 @@ def decorate(c, cfgs):
             if c.rng.random() < 0.1:
                 drop[x] = [KID]
         v["drop"] = drop
+        # every 5th service through the public service.New / Start / Shutdown (logs only; the real logger factory, console / sampled)
+        real = any(typ(x) in ("otlp", "memory_limiter") for p in v["pipes"] for x in p["r"] + p["p"])
+        v["svc"] = (i + c.seed) % 5 == 0 and not real
+        if v["svc"]:
+            v["stack"] = ["console", "sampled"][((i + c.seed) // 5) % 2]
     return cfgs
 
 
@@ -344,10 +350,10 @@ def run(c):
         raise vlib.Inconclusive("script generator failed: %s\n%s" % (r.error, r.out[-1500:]))
     scripts = r.printed
     if not qk:
-        r2 = c.tlc(SPEC, "CompTelAlgMC", cfg_text=alg_cfg("real", "{ARcv, AProc}", "KeySetsQ", 4, "GenEmit", stacks='{"teesampled"}'), workers=1,
+        r2 = c.tlc(SPEC, "CompTelAlgMC", cfg_text=alg_cfg("real", "AttrSets2", "KeySetsQ", 4, "GenEmit", stacks="StackTS"), workers=1,
                    timeout=1500, label="alggen2", count=False, heap="8g")
         if not r2.ok:
-            raise vlib.Inconclusive("script generator failed: %s" % r2.error)
+            raise vlib.Inconclusive("script generator failed: %s\n%s" % (r2.error, r2.out[-1500:]))
         scripts += r2.printed
     ns, ne = replay_scripts(c, binp, scripts, "bfs")
     total += ns
